@@ -561,6 +561,18 @@ func (e *SpecEnv) call(n *ast.CallExpr) Val {
 					return Val{T: fmt.Sprint(t.Len()), Typ: tInt}
 				}
 				sfail("len of %s", a.Typ)
+			case "rowof":
+				// rowof(s): the whole backing array of slice s (as a value); offof(s): its offset
+				a := e.expr(n.Args[0])
+				sl, ok := a.Typ.Underlying().(*types.Slice)
+				if !ok {
+					sfail("rowof on %s", a.Typ)
+				}
+				arr, _ := u.elemArr(sl.Elem())
+				return Val{T: sel(u.hget(e.heap, arr), "(sl.base "+a.T+")"), Typ: types.NewArray(sl.Elem(), 0)}
+			case "offof":
+				a := e.expr(n.Args[0])
+				return Val{T: "(sl.off " + a.T + ")", Typ: tInt}
 			case "fresh":
 				a := e.expr(n.Args[0])
 				oldTop := u.top(e.oldHeap)
